@@ -38,7 +38,7 @@ ROTS = [0.0, 30.0, 45.0, 90.0, 135.0, 180.0, 270.0, 360.0, 390.0, -30.0, -450.0,
 FLAGS = [(0, 0), (0, 1), (1, 0), (1, 1)]
 MAGS = [1e-3, 1.0, 1e5]
 STARTS = [(0.0, 0.0), (3.0, -2.0)]
-ENTRIES = ["arc", "path", "path-rel", "builder", "builder-second"]
+ENTRIES = ["arc", "path", "path-rel", "builder", "builder-second", "path-z"]
 
 
 def fmt(x):
@@ -63,6 +63,13 @@ def make(svg, entry, start, rx, ry, rot, fa, fs, end):
         d = "M%s,%s a%s,%s %s %d,%d %s,%s" % (fmt(start[0]), fmt(start[1]), fmt(rx), fmt(ry), fmt(rot), fa, fs,
                                                fmt(dx), fmt(dy))
         return svg.Path(d)[1]
+    if entry == "path-z":
+        # the arc's end point written as the segment-completing close, in a SECOND subpath (the close returns to that
+        # subpath's start, not to the path's first point)
+        q = (start[0] - 3.0 * (abs(rx) + abs(ry) + 1.0), start[1] - 2.0 * (abs(rx) + abs(ry) + 1.0))
+        d = "M%s,%s L%s,%s z M%s,%s L%s,%s A%s,%s %s %d,%d z" % (fmt(q[0]), fmt(q[1]), fmt(q[0] + 1), fmt(q[1] + 2), fmt(end[0]), fmt(end[1]),
+                                                            fmt(start[0]), fmt(start[1]), fmt(rx), fmt(ry), fmt(rot), fa, fs)
+        return svg.Path(d)[5]
     if entry == "builder":
         # the programmatic builder the parser itself uses: Path().move(p).arc(rx, ry, rot, fa, fs, end)
         p = svg.Path()
